@@ -247,6 +247,7 @@ struct Pending {
 }
 
 fn execute(scn: &BScn, property: &str) -> RunOutcome {
+    simmodel::normalise_hidden_state();
     let mut out = RunOutcome::default();
     let mut h = ObsHash::default();
     let cfg = &scn.cfg;
